@@ -150,6 +150,13 @@ func c06ExecMode(t testing.TB, cfg c06Cfg, script []c06Op, gen func(e *c06Env, n
 			run.transcript = append(run.transcript, strings.Join(fa, ","), strings.Join(fb, ","))
 			run.pairs++
 			continue
+		case "tc":
+			// the last feed of an upload with trailers, cancelled inside the trailer block (RoundTrip
+			// still waiting for the response: the cancellation is noticed at once)
+			if st := e.streams[id(op)]; st != nil && st.body != nil && !st.dead() && !st.aborted && st.released == st.recvd && st.phSent == 0 &&
+				st.trailer > op.cut && op.cut >= 0 && e.pending == nil && e.lastFeed(st, op.a) {
+				tok = e.feedCancel(st.id, op.a, op.cut)
+			}
 		case "oc":
 			tok = e.openCancel(op.a, op.flag, op.b, c06Shape{head: op.head, trailer: op.trlp1 - 1}, op.cut)
 			e.opened[len(e.opened)-1].tokIdx = len(run.tokens)
@@ -732,6 +739,17 @@ func c06Directed() []c06Script {
 			S(c06Set(xhttp2.SettingMaxFrameSize, 20000)), oc(0, true, 50000, 19995), oc(0, true, 50000, 20000), oc(0, false, 50000, 40001), oc(0, true, 20100, 20000), ping)
 		add("cancel-in-header-block-"+c.name, c, ops...)
 	}
+	// 22b. the same inside the request's trailer block (the last body octets are written first)
+	tc := func(s, cut int) c06Op { return c06Op{kind: "tc", s: s, cut: cut} }
+	for _, c := range []c06Cfg{def, firefox} {
+		var ops []c06Op
+		ops = append(ops, S(c06Set(xhttp2.SettingInitialWindowSize, 1<<20)), wu(-1, 1<<20))
+		for i, cut := range []int{0, 1, 16378, 16379, 16383, 16384, 16385, 32768, 39999} {
+			ops = append(ops, openTrl(100+i, i%2 == 0, 40000), tc(i, cut))
+		}
+		ops = append(ops, openTrl(30000, true, 50000), feed(9), tc(9, 20000), ping)
+		add("cancel-in-trailer-block-"+c.name, c, ops...)
+	}
 	// 23. Body.Close / Body.Read / cancel on one stream while another stream's body writer is parked
 	//     in the middle of a DATA frame (cc.wmu held): Close at every state of the response - data
 	//     unread, partly read, fully received (END_STREAM seen) and unread, nothing unread -; the
@@ -1017,6 +1035,13 @@ func c06Gen(r *rand.Rand, maxOps int) func(e *c06Env, n int) *c06Op {
 					nn = verifh.Pick(r, []int{1, 100, 8192, 16383, 16384})
 				}
 				fs := verifh.Pick(r, feedable)
+				if st := e.streams[e.order[fs]]; st.trailer >= 16300 && st.phSent == 0 && e.pending == nil && e.lastFeed(st, nn) && r.Intn(2) == 0 {
+					mf := int(e.maxFrame)
+					cut := verifh.Pick(r, []int{0, 1, mf - 6, mf - 5, mf - 1, mf, mf + 1, 2 * mf, st.trailer - 1, r.Intn(st.trailer)})
+					if cut >= 0 && cut < st.trailer {
+						return &c06Op{kind: "tc", s: fs, a: nn, cut: cut}
+					}
+				}
 				if r.Intn(3) == 0 && e.pending == nil {
 					// an operation on another stream while this stream's writer is parked inside a DATA
 					// frame (cc.wmu held): Body.Close at whatever state the response is in, Body.Read, cancel
